@@ -209,6 +209,13 @@ func (d *drv) randomOp(rnd *rand.Rand, host string, capsSeen *[]capRec) (map[str
 			x = 95
 		}
 	}
+	if sc.ReleaseHeavy && rnd.Intn(12) == 0 {
+		// assignment by address (AssignIP): a pool address, free or not (an allocated one is refused)
+		p := sc.Pools[rnd.Intn(len(sc.Pools))]
+		base := strings.TrimSuffix(strings.Split(p.CIDR, "/")[0], ".0")
+		ip := fmt.Sprintf("%s.%d", base, rnd.Intn(8))
+		return map[string]any{"op": "assignip", "host": host, "h": handleIDs[rnd.Intn(len(handleIDs))], "ip": ipJSON(ip)}, true
+	}
 	switch {
 	case x < 50:
 		op := map[string]any{"op": "assign", "host": host, "h": handleIDs[rnd.Intn(len(handleIDs))],
